@@ -441,10 +441,16 @@ def one_call(ctx, case, st, kind, run, r_idx, state):
     if ctx.driver is None:
         return
     if not expect_error and not scripted:
+        # the model (QV.Batching.shuffleData) takes the randperm / randint results as inputs: when the code draws its randomness differently the
+        # theorems can no longer be tied to it. Reported ONCE per run as a broken CORRESPONDENCE (auxiliary point, stable signature); the property
+        # itself is judged by the effect oracles above (so the verdict is "no failing input found" unless one of them fails).
         if not ctx.__dict__.get("_c07_noted"):
             ctx._c07_noted = True
             ctx.note("C07: the implementation does not consume torch.randperm/torch.randint as the model scripts it; the model comparison is skipped "
                      "for such runs and the verdict comes from the effect oracles evaluated on the batches actually consumed")
+            ctx.point("random draws consumed as the model scripts them (one randperm(N), then at most one randint per epoch)", "aux",
+                      [[en[0] for en in ep["rng"]][:6] for ep in eps][:3], [["perm"], ["perm", "randint"]], case, exact=True,
+                      sig=f"{kind}/rng-not-consumed-as-modelled", theorem="C07_fit_batches")
         return
     if expect_error:
         perm = (eps[0]["perm"] if eps and eps[0]["perm"] else None) or list(range(N))
